@@ -80,4 +80,34 @@ macro "frame_step" : tactic => `(tactic| first
   | (refine only_loopWhile _ _ Prod.fst _ _ _ _ ?_ (fun _ _ => ?_))
   | dsimp only)
 
+
+section
+variable {α : Type} {φ : Type} [FMem φ α]
+/-- cut rule: establish the footprint of an intermediate memory, then continue with it as a hypothesis -/
+theorem only_via (ids : List Nat) (st x T : φ) (h1 : Only α ids st x) (h2 : Only α ids st x → Only α ids st T) : Only α ids st T := h2 h1
+end
+
+/-- `peel_all`: footprint proofs for LARGE generated kernels, without zeta-reducing them (zeta-reduction multiplies every tuple-valued
+    conditional by the number of its components at each nesting level: the 400-line 3-j kernel does not finish that way).  The leading
+    `have x := v; …` of the goal `Only α ids st (have x := v; b)` is pulled out as a local definition; if `x` is a memory, or a tuple whose
+    first component is, `Only α ids st x` (resp. `x.1`) is proved first — recursively, with `frame_step` at the leaves — and kept as a
+    hypothesis; then the value of `x` is forgotten.  Only first components of tuples are ever followed, so nothing is duplicated. -/
+syntax "peel_all" : tactic
+macro "peel_let" : tactic => `(tactic| (
+  extract_lets (onlyGivenNames := true) x
+  first
+    | (refine only_via _ _ x _ (by dsimp only [x]; peel_all) (fun hx => ?_)
+       clear_value x)
+    | (refine only_via _ _ x.1 _ (by dsimp only [x]; peel_all) (fun hx => ?_)
+       clear_value x)
+    | clear_value x))
+macro_rules
+  | `(tactic| peel_all) => `(tactic| repeat (first
+      | assumption
+      | apply_assumption      -- (a hypothesis `∀ …, Only α ids st x → Only α ids st (callee … x)`: the footprint of a callee)
+      | peel_let
+      | (simp only [apply_ite Prod.fst]; done)
+      | frame_step
+      | (rw [apply_ite Prod.fst])))
+
 end Frame
